@@ -551,3 +551,32 @@ Qed.
    error entry is present iff its cause is present now (an entry disappears at the first refresh after repair) *)
 Theorem refresh_memoryless fs1 fs2 : scan fs1 = scan fs2 -> refresh fs1 = refresh fs2.
 Proof. unfold refresh. intros ->. reflexivity. Qed.
+
+(* ---------- a file in the highest-priority directory wins (used by C16: the written Spec's devices resolve to it) ---------- *)
+Theorem top_unique_resolves n a f b :
+  defines n f = true ->
+  (forall g, In g (a ++ b) -> lf_prio g <= lf_prio f) ->
+  (forall g, In g (a ++ b) -> lf_prio g = lf_prio f -> defines n g = false) ->
+  exists d, def_in f n (s_devices (lf_spec f)) = Some d /\ resolve_spec (a ++ f :: b) n = Some (mkCdev f d).
+Proof.
+  intros Hdef Hle Hno.
+  assert (Top : top (defs n (a ++ f :: b)) = lf_prio f).
+  { apply Nat.le_antisymm.
+    - apply top_bound. apply Forall_filter. apply Forall_forall. intros g Hg.
+      apply in_app_or in Hg as [Hg|[<-|Hg]]; [apply Hle; apply in_or_app; left; exact Hg|lia|apply Hle; apply in_or_app; right; exact Hg].
+    - apply top_ge. apply filter_In. split; [apply in_or_app; right; left; reflexivity|exact Hdef]. }
+  assert (F : forall l, (forall g, In g l -> In g (a ++ b)) ->
+              filter (fun g => Nat.eqb (lf_prio g) (lf_prio f)) (filter (defines n) l) = []).
+  { induction l as [|g r IH]; intro Hl; cbn [filter]; [reflexivity|].
+    destruct (defines n g) eqn:D; cbn [filter].
+    - destruct (Nat.eqb (lf_prio g) (lf_prio f)) eqn:E.
+      + apply Nat.eqb_eq in E. rewrite (Hno g (Hl g (or_introl eq_refl)) E) in D. discriminate.
+      + apply IH. intros h Hh. apply Hl. right. exact Hh.
+    - apply IH. intros h Hh. apply Hl. right. exact Hh. }
+  unfold resolve_spec, at_top. rewrite Top. unfold defs. rewrite filter_app. cbn [filter]. rewrite Hdef.
+  rewrite filter_app. cbn [filter]. rewrite Nat.eqb_refl.
+  rewrite (F a) by (intros g Hg; apply in_or_app; left; exact Hg).
+  rewrite (F b) by (intros g Hg; apply in_or_app; right; exact Hg). cbn [app].
+  unfold defines in Hdef. destruct (def_in f n (s_devices (lf_spec f))) as [d|]; [|discriminate].
+  exists d. split; reflexivity.
+Qed.
